@@ -14,6 +14,15 @@ def disc(sc: dict, tr: dict, clause: str, pos: int) -> str:
     t = evs[pos - 1]['t'] if 0 < pos <= len(evs) else 0
     if '-d22-' in str(sc.get('id')):
         return 'own-aaaa-on-ipv6-socket'        # the directed histories of finding D22 (respfam.d22_scenarios)
+    if clause == 'C11_UnicastEcho':
+        # finding D29: the rejected reply answers a query that came from another port of an address for which a truncated train
+        # (from a different port) was held
+        last = next((e for e in reversed(evs[:pos]) if e['ev'] == 'recv' and not e.get('resp') and not e.get('bad') and e.get('inj')), None)
+        if last is not None and not last.get('tc'):
+            for e in evs[:pos]:
+                if (e['ev'] == 'recv' and e.get('tc') and not e.get('bad') and e.get('src') == last.get('src') and e.get('port') != last.get('port')
+                        and last['t'] - 500 <= e['t'] <= last['t']):
+                    return 'other-port-completes-held-train'
     if clause.startswith('C12_'):
         # the rejected send follows the assembly of a truncated (TC) query by less than 1.3 s
         for e in evs[:pos]:
